@@ -208,11 +208,26 @@ def run(tier):
                     if stuck:
                         v._distinct.add((c.id, op[:120]))
                 else:
+                    # the main loops may go BACK (nocont / compbrl / capacity back-off restart at the start of the word): the
+                    # run is cut where the position decreases; each stretch may take 3n+4 iterations and there may be at
+                    # most n+1 restarts (one per position: F28/F33 were violations of exactly that).  This is a detector for
+                    # rules that re-apply themselves without advancing (F31), not a clause of the property: a call that
+                    # returns is not a violation of C03 by itself, so the signature is separate from non-termination.
+                    pp = [r[0] for r in seg["recs"]]
+                    runs, cur = [], 1
+                    for a, b in zip(pp, pp[1:]):
+                        if b < a:
+                            runs.append(cur); cur = 1
+                        else:
+                            cur += 1
+                    runs.append(cur)
+                    longest = max(runs) if runs else 0
                     if n:
-                        dist["max_ratio_main"] = max(dist["max_ratio_main"], round(cnt / (3 * n + 4), 3))
-                    if cnt > 3 * n + 4:
+                        dist["max_ratio_main"] = max(dist["max_ratio_main"], round(longest / (3 * n + 4), 3))
+                    if longest > 3 * n + 4 or len(runs) > n + 2:
                         v.violation("C03:bound:%s" % SITE_NAMES[seg["site"]],
-                                    "main pass loop took %d iterations on %d elements (> 3n+4)" % (cnt, n),
+                                    "main pass loop: %d iterations on %d elements in %d stretches, the longest of %d (> 3n+4, or more "
+                                    "than n+1 restarts): a rule re-applies itself without advancing" % (cnt, n, len(runs), longest),
                                     {"script": c.setup + [op], "result": o[:2000], "table_text": c.meta.get("text", "")})
                 if cnt > 1:
                     v._distinct.add((c.id, seg["site"], n, cnt))
